@@ -132,7 +132,8 @@ def run(tier, seed):
     col = Collector("C28:problog_export", "exported Python functions returning int/float/str/list values, called from a "
                     "program; the answer term must denote exactly the Python result; distinct = (type, value)")
     values = {"int": [0, -5, 12345678901234567890], "float": [0.5, -2.25, 1.0e10, 3.0],
-              "str": ["a", "hello world", "Abc", "it's"], "list": [[], [1, 2, 3], [1, [2, 3]]]}
+              "str": ["a", "hello world", "Abc", "it's"], "list": [[], [1, 2, 3], [1, [2, 3]], [(1, 2), 3], [1, (2, 3, 4)], [("a", "b")],
+                                                          [[(1, 2)], (3, [4, 5])]]}
     d = tempfile.mkdtemp(prefix="c28_")
     try:
         with open(os.path.join(d, "c28_extern.py"), "w") as f:
